@@ -286,3 +286,124 @@ def ordinal_site(f, inst, P):
                         return "%s#%d" % (name, n)
         return name
     return "%s" % inst.op
+
+
+# ---------- return-class summaries ----------
+def must_atoms(ctx, P, f, ret_pred):
+    """(atom, pol) pairs that hold on EVERY path of f whose return satisfies ret_pred(view);
+    also returns the number of such paths"""
+    views = path_views(ctx, P, f)
+    sel = [v for v in views if ret_pred(v)]
+    if not sel:
+        return set(), 0
+    common = None
+    for v in sel:
+        s = set(v.atoms)
+        common = s if common is None else (common & s)
+    return common, len(sel)
+
+
+def ret_class_pred(pred, const):
+    """view predicate: return value ⋈ const, for a caller-side guard `call ⋈ const` with polarity already applied"""
+    def p(v):
+        c = v.ret_const()
+        if c is None:
+            if v.ret_is_null():
+                c = 0
+            else:
+                return None  # unknown
+        return {"eq": c == const, "ne": c != const, "slt": c < const, "sle": c <= const, "sgt": c > const,
+                "sge": c >= const, "ult": (c % (1 << 64)) < (const % (1 << 64)),
+                "ugt": (c % (1 << 64)) > (const % (1 << 64))}.get(pred)
+    return p
+
+
+def negate_pred(pred):
+    return {"eq": "ne", "ne": "eq", "slt": "sge", "sge": "slt", "sgt": "sle", "sle": "sgt",
+            "ult": "uge", "uge": "ult", "ugt": "ule", "ule": "ugt"}[pred]
+
+
+# ---------- value provenance ----------
+def leaves(P, f, o, through_loads=True, limit=400):
+    """backward closure of an operand through phi / casts / GEP base / (optionally) the address of loads /
+    container_of; returns (set of leaf terms, set of (struct, field) traversed)"""
+    seen = set()
+    out = set()
+    fields = set()
+    st = [o]
+    n = 0
+    while st:
+        x = st.pop()
+        n += 1
+        if n > limit:
+            raise AnalysisBroken("provenance closure too large in %s" % f.name)
+        if isinstance(x, list):
+            out.add(P.term(f, x))
+            continue
+        if x in seen:
+            continue
+        seen.add(x)
+        if x < f.nparams:
+            out.add(("param", x, f.params[x]["name"]))
+            continue
+        i = f.insts[x]
+        if i.op in CAST_OPS:
+            st.append(i.a[0])
+        elif i.op == "phi":
+            for (v, _) in i.inc:
+                st.append(v)
+        elif i.op == "select":
+            st.append(i.a[1])
+            st.append(i.a[2])
+        elif i.op == "getelementptr":
+            for s in i.path:
+                if s[0] == "f":
+                    fields.add((s[1], P.field_name(s[1], s[2])))
+            st.append(i.a[0])
+        elif i.op == "load" and through_loads:
+            st.append(i.a[0])
+        else:
+            out.add(P.term(f, x))
+    return out, fields
+
+
+# ---------- path-sensitive value of a local slot ----------
+def slot_value(view, alloca_id, upto_pos=None):
+    """term describing the content of an address-taken local at position upto_pos on this path:
+    ('stored', term) | ('outparam', callee srcname, call inst) | None"""
+    P, f = view.P, view.f
+    last = None
+    for k, i in view.insts():
+        if upto_pos is not None and k >= upto_pos:
+            break
+        if i.op == "store" and P.strip(f, i.a[1]) == alloca_id:
+            last = ("stored", P.term(f, view.resolve(i.a[0])), i)
+        elif i.op == "call":
+            for a in i.a:
+                if P.strip(f, a) == alloca_id:
+                    name = P.srcname_of(i.callee) if i.callee else "icall"
+                    last = ("outparam", name, i)
+    return last
+
+
+def ret_value_term(view):
+    """term of the returned value on this path, local slots resolved path-sensitively"""
+    P, f = view.P, view.f
+    o = view.ret_operand()
+    if o is None:
+        return None
+    if isinstance(o, int) and o >= f.nparams:
+        i = f.insts[o]
+        if i.op == "load":
+            a = P.strip(f, i.a[0])
+            if isinstance(a, int) and a >= f.nparams and f.insts[a].op == "alloca":
+                # position of this load on the path
+                pos = None
+                for k, j in view.insts():
+                    if j.id == i.id:
+                        pos = k
+                sv = slot_value(view, a, pos)
+                if sv is None:
+                    return ("uninit",)
+                return sv[:2] if sv[0] == "outparam" else sv[1]
+    return P.term(f, o)
